@@ -102,6 +102,9 @@ def gen_history(rng, n_versions, apps=('app1',), rows=True):
     used = set((a, m, f) for a, mods in spec.items()
                for m, ms in mods.items() for f, _d in ms['fields'])
     added, nullchanged = set(), set()
+    ever_ref = set(tuple(fd['to'].split('.')) for mods in spec.values()
+                   for ms in mods.values() for _n, fd in ms['fields']
+                   if fd.get('to'))
     h.specs.append(spec)
     classes = S.build_models(spec)
     psig = S.project_sig(classes, apps_order=list(spec))
@@ -126,6 +129,14 @@ def gen_history(rng, n_versions, apps=('app1',), rows=True):
                 seqcase._validate_spec(nxt)
             except Exception:
                 continue
+            if e['op'] == 'delete_model' and (e['app'], e['model']) in ever_ref:
+                # a relation to the model existed at some point of the
+                # history (possibly only inside one step): batching the
+                # evolutions regroups it behind the DeleteModel
+                # (KF-C03-M2-DELETEMODEL-IN-BATCH)
+                continue
+            if e['op'] == 'add_field' and e['fdef'].get('to'):
+                ever_ref.add(tuple(e['fdef']['to'].split('.')))
             psig = trial
             cur = nxt
             edits.append((e, str(m)))
